@@ -16,7 +16,7 @@ import (
 )
 
 type Op struct {
-	Kind string `json:"kind"` // set delete reset renew serve
+	Kind string `json:"kind"` // set delete reset renew serve rangeDelete
 	Slot int    `json:"slot"`
 	K    string `json:"k,omitempty"`
 	V    string `json:"v,omitempty"`
@@ -99,8 +99,11 @@ func gen(t *rapid.T) Case {
 			if rapid.IntRange(0, 14).Draw(t, "many") == 0 {
 				op.Many = rapid.IntRange(25, 40).Draw(t, "manyN")
 			}
-		case k < 15:
+		case k < 14:
 			op.Kind = "delete"
+			op.K = genStr(t, "key", keyPool)
+		case k < 15:
+			op.Kind = "rangeDelete" // a Range whose callback deletes another key, as a map allows
 			op.K = genStr(t, "key", keyPool)
 		case k < 16:
 			op.Kind = "reset"
@@ -128,7 +131,7 @@ func errEq(a, b error) bool {
 	return a.Error() == b.Error()
 }
 
-func verify(ctx *types.Context, model map[string]string, c Case, when string) error {
+func verify(ctx *types.Context, model map[string]string, c Case, when string, ever ...string) error {
 	var ps types.Params = ctx.Params()
 	if ps.Count() != len(model) {
 		return rig.Violf("count", "%s: Count()=%d, model has %d", when, ps.Count(), len(model))
@@ -140,6 +143,7 @@ func verify(ctx *types.Context, model map[string]string, c Case, when string) er
 		return rig.Violf("range", "%s: Range visited %v (%d visits), model %v", when, seen, visits, model)
 	}
 	keys := append([]string{}, c.Probe...)
+	keys = append(keys, ever...) // keys this context held earlier (and may have read): absent means absent
 	for k := range model {
 		keys = append(keys, k)
 	}
@@ -239,6 +243,8 @@ func verify(ctx *types.Context, model map[string]string, c Case, when string) er
 	return nil
 }
 
+func has(m map[string]string, k string) bool { _, ok := m[k]; return ok }
+
 func mixed(v string) bool {
 	ok, bad := 0, 0
 	count := func(err error) {
@@ -272,6 +278,12 @@ func check(c Case, st *rig.Stats) error {
 	nontriv := false
 	var classes []string
 	var tr *traffic
+	var ever [2][]string
+	remember := func(slot int, k string) {
+		if len(ever[slot]) < 40 {
+			ever[slot] = append(ever[slot], k)
+		}
+	}
 	for i := range ctxs {
 		if err := verify(ctxs[i], models[i], c, fmt.Sprintf("fresh slot %d", i)); err != nil {
 			return err
@@ -283,6 +295,7 @@ func check(c Case, st *rig.Stats) error {
 		case "set":
 			ctx.Set(op.K, op.V)
 			model[op.K] = op.V
+			remember(op.Slot, op.K)
 			for j := 0; j < op.Many; j++ {
 				k := fmt.Sprintf("fill%d", j)
 				ctx.Set(k, strconv.Itoa(j))
@@ -297,6 +310,28 @@ func check(c Case, st *rig.Stats) error {
 		case "delete":
 			ctx.Delete(op.K)
 			delete(model, op.K)
+		case "rangeDelete":
+			var bad string
+			ctx.Range(func(k, v string) {
+				// whatever Range yields must be in the context at that moment
+				if got, ok := ctx.Get(k); (!ok || got != v) && bad == "" {
+					bad = fmt.Sprintf("Range yielded %q=%q but Get says %q,%v", k, v, got, ok)
+				}
+				if k != op.K {
+					ctx.Delete(op.K)
+				}
+			})
+			if bad != "" {
+				return rig.Violf("range-while-deleting", "step %d: %s", i, bad)
+			}
+			others := len(model)
+			if has(model, op.K) {
+				others--
+			}
+			if others > 0 { // the callback ran on some other key and deleted op.K
+				delete(model, op.K)
+			}
+			classes = append(classes, "range-while-deleting")
 		case "reset":
 			ctx.Reset()
 			clear(model)
@@ -335,7 +370,7 @@ func check(c Case, st *rig.Stats) error {
 			nontriv = true
 		}
 		for s := range ctxs {
-			if err := verify(ctxs[s], models[s], c, fmt.Sprintf("after step %d (%s) slot %d", i, op.Kind, s)); err != nil {
+			if err := verify(ctxs[s], models[s], c, fmt.Sprintf("after step %d (%s) slot %d", i, op.Kind, s), ever[s]...); err != nil {
 				return err
 			}
 		}
